@@ -146,6 +146,17 @@ var c12KeyPool = []c12Expr{
 	c12Const("'ab' + 'c'", "concat", "abc"),
 }
 
+// number literals in a spelling that is not the one the evaluated number prints as: the written
+// / removed key is the EVALUATED key
+var c12SpellKeys = []c12Expr{
+	c12Const("007", "number", "7"),
+	c12Const("00", "number", "0"),
+	c12Const("012", "number", "12"),
+	c12Const("0012 + 0", "number", "12"),
+	c12Const("7", "number", "7"),
+	c12Const("'007'", "literal", "007"),
+}
+
 // only in PUT: a key expression may mention `key` (the empty key at that point)
 var c12PutKeyExtra = []c12Expr{}
 
@@ -742,6 +753,18 @@ func runC12(c *runCtx) error {
 			for _, k3 := range rk3 {
 				c12Run(e, c12Stmt{remove: true, keys: []c12Expr{k1, k2, k3}}, nextPrior(), nextPolls(), 0, 0, readSample)
 			}
+		}
+	}
+
+	// part A2: number-literal keys whose spelling differs from their evaluated text
+	for _, k1 := range c12SpellKeys {
+		c12Run(e, c12Stmt{remove: true, keys: []c12Expr{k1}}, nextPrior(), nextPolls(), 0, 0, []string{"7", "007", "0"})
+		for _, v := range []c12Expr{c12ValPool[0], c12ValPool[1], c12ValPool[8]} {
+			c12Run(e, c12Stmt{keys: []c12Expr{k1}, vals: []c12Expr{v}}, nextPrior(), nextPolls(), 0, 0, []string{"7", "007", "12"})
+		}
+		for _, k2 := range c12SpellKeys {
+			c12Run(e, c12Stmt{remove: true, keys: []c12Expr{k1, k2}}, nextPrior(), nextPolls(), 0, 0, []string{"7", "007", "12"})
+			c12Run(e, c12Stmt{keys: []c12Expr{k1, k2}, vals: []c12Expr{c12ValPool[1], c12ValPool[0]}}, nextPrior(), nextPolls(), 0, 0, []string{"7", "007", "0"})
 		}
 	}
 
